@@ -1,4 +1,4 @@
--- PINNED by bin/pin_tables: copy of Gen/MapOrder.lean as generated from /repo at 18263c5 — regenerate, do not edit
+-- PINNED by bin/pin_tables: copy of Gen/MapOrder.lean as generated from /repo at 7ba0a04 — regenerate, do not edit
 namespace Ggql.Pinned
 /-- (function, ranged map expression, what the loop body does that can expose the order) -/
 def mapRanges : List (String × String × String) :=
@@ -18,6 +18,8 @@ def mapRanges : List (String × String × String) :=
    ("Root.replaceArgVars", "tv", "sorted-keys"),
    ("Root.validateDirUse", "du.Args", "sorted-keys"),
    ("VerifParseExe", "exe.Ops", "append"),
+   ("mergeValue", "ta", "none"),
+   ("mergeValue", "tp", "none"),
    ("typeList.dup", "tl.dict", "none"),
    ("writeMap", "m", "none"),
    ("writeMap", "m", "sorted-keys")]
